@@ -15,6 +15,17 @@ fn verif_replay_repl() {
         arr.push(Resp::Bulk(BulkStr::Str(t.clone().into_bytes())));
     }
     let resp = Resp::Arr(Array::Arr(arr));
+    if spec["corrupt"].as_bool().unwrap_or(false) {
+        // a corrupted (one token deleted) message: it must be rejected, or decode to the value of the original
+        let original: Vec<String> = serde_json::from_value(spec["original"].clone()).expect("original");
+        if let Ok(meta) = parse_repl_meta(&resp) {
+            if encode_repl_meta(meta) != original {
+                println!("\nVERIF-REPLAY: violated C17/corrupted-repl-meta-accepted {:?} (original {:?})", tokens, original);
+            }
+        }
+        println!("\nVERIF-REPLAY: done");
+        return;
+    }
     match parse_repl_meta(&resp) {
         Err(_) => println!("\nVERIF-REPLAY: violated C17/repl-meta-rejected {:?}", tokens),
         Ok(meta) => {
